@@ -67,14 +67,14 @@ func initSpecDirs() {
 	cdi.SetSpecValidator(schema.WithSchema(s))
 
 	if len(specDirs) > 0 {
-		cache, err := cdi.NewCache(
+		err = cdi.Configure(
 			cdi.WithSpecDirs(specDirs...),
 		)
 		if err != nil {
-			fmt.Printf("failed to create CDI cache: %v\n", err)
+			fmt.Printf("failed to configure CDI cache: %v\n", err)
 			os.Exit(1)
 		}
-		if len(cache.GetErrors()) > 0 {
+		if len(cdi.GetDefaultCache().GetErrors()) > 0 {
 			cdiPrintCacheErrors()
 			os.Exit(1)
 		}
